@@ -33,7 +33,11 @@ class MkSslContexts(FnCheck):
         self.key, self.cert = b.obj('key_file', cls='Path'), b.obj('cert_file', cls='Path')
         ca = vany(z3.If(self.ca_given.e, Val.ref(self.ca.e), Val.none), maybe_none=True, path='ca_file')
         b.st.ghost['ctx'] = ()
-        return None, [self.key, self.cert, ca], {}
+        # every optional argument is symbolic: a cipher string / password may or may not be given
+        self.cyphers_given = b.bool('cyphers_given')
+        cy = vany(z3.If(self.cyphers_given.e, Val.str(b.str('cyphers').e), Val.none), maybe_none=True, path='cyphers')
+        pw = vany(z3.If(b.bool('password_given').e, Val.str(b.str('ssl_passwd').e), Val.none), maybe_none=True, path='ssl_passwd')
+        return None, [self.key, self.cert, ca], {'cyphers': cy, 'ssl_passwd': pw}
 
     def callees(self, ex):
         def exists(ex_, st, args, kwargs):
